@@ -17,7 +17,13 @@ use std::collections::{BTreeMap, BTreeSet};
 #[serde(tag = "kind")]
 pub enum Replay {
     #[serde(rename = "case")]
-    Case { case: Case, deep_c17: bool },
+    Case {
+        case: Case,
+        deep_c17: bool,
+        /// the property whose check produced this replay (see `RunOpts::own`)
+        #[serde(default)]
+        own: Option<String>,
+    },
     #[serde(rename = "pushloop")]
     PushLoop { start: usize, ch: char, n: usize, heap: HeapCfg },
     /// a worker died or hung while running this index: replay = run that index again
@@ -232,7 +238,7 @@ impl<'a> Worker<'a> {
                         index,
                         violation: mv,
                         original_steps,
-                        replay: Replay::Case { case: mc, deep_c17: opts.deep_c17 },
+                        replay: Replay::Case { case: mc, deep_c17: opts.deep_c17, own: opts.own.clone() },
                     });
                 }
             } else {
@@ -271,7 +277,7 @@ impl<'a> Worker<'a> {
     pub fn run(&mut self, progress: &mut dyn FnMut(u64)) {
         let spec = self.spec;
         let (_, _, deep) = profile(&spec.prop, false);
-        let opts = RunOpts { deep_c17: deep, record_counts: false };
+        let opts = RunOpts { own: Some(spec.prop.clone()), deep_c17: deep, record_counts: false };
         let steps_max = self.steps_cap.unwrap_or(if spec.thorough { 120 } else { 40 });
         match spec.workload.as_str() {
             "hist" | "histf" => {
@@ -283,7 +289,7 @@ impl<'a> Worker<'a> {
                 }
             }
             "c05sweep" => {
-                let ropts = RunOpts { deep_c17: false, record_counts: true };
+                let ropts = RunOpts { own: Some(spec.prop.clone()), deep_c17: false, record_counts: true };
                 for i in spec.indices(u64::MAX) {
                     progress(i);
                     self.agg.units += 1;
@@ -309,7 +315,7 @@ impl<'a> Worker<'a> {
                 }
             }
             "c18sweep" => {
-                let ropts = RunOpts { deep_c17: false, record_counts: true };
+                let ropts = RunOpts { own: Some(spec.prop.clone()), deep_c17: false, record_counts: true };
                 for i in spec.indices(u64::MAX) {
                     progress(i);
                     self.agg.units += 1;
@@ -600,9 +606,9 @@ pub fn push_loop(start: usize, ch: char, n: usize, hc: &HeapCfg) -> Result<LoopS
 
 pub fn replay(r: &Replay) -> Option<Violation> {
     match r {
-        Replay::Case { case, deep_c17 } => {
+        Replay::Case { case, deep_c17, own } => {
             let mut src = Explicit { steps: &case.steps, at: 0 };
-            run_case(case.slots, &case.heap, &case.fail_run_req, &mut src, &RunOpts { deep_c17: *deep_c17, record_counts: false }).violation
+            run_case(case.slots, &case.heap, &case.fail_run_req, &mut src, &RunOpts { own: own.clone(), deep_c17: *deep_c17, record_counts: false }).violation
         }
         Replay::PushLoop { start, ch, n, heap } => push_loop(*start, *ch, *n, heap).err(),
         Replay::Rerun { .. } => None,
